@@ -14,6 +14,13 @@ oracles        : probability vector aligned with the processes (dense reference)
                  analog_tjm_1 / analog_tjm_2 / mcwf (exhaustive outcome tree with the code's own probabilities) against the
                  dense Lindbladian `expm`, with the Richardson ratio err(dt)/err(dt/2) >= 3 at fixed step count.
 (The order of unitary / dissipation / lottery per grid column is tied by C15's pipeline trace, not here.)
+consistency    : (extension, theorems C01.7 `c01_consistency` … of Props/C01.lean) one whole step of the REAL `analog_tjm_1`,
+                 `analog_tjm_2` and `mcwf` for dt, dt/2, dt/4 (exhaustive outcome tree, the code's own probabilities, final
+                 state of every leaf observed at the return of the real `stochastic_process` / in `ctx.output_state`):
+                 the difference quotient (E(dt) - rho)/dt converges to the dense Lindbladian L(rho) at first order
+                 (error <= C*dt, error ratio ~2 per halving) — the derivative the theorem states is the derivative the
+                 code has; for order 1 the state the real solver hands to the lottery is sent to the driver (`avg`), whose
+                 closed form (= `pureAverage` of the theorem) must reproduce the real branch average.
 """
 from __future__ import annotations
 
@@ -69,6 +76,11 @@ def gen(rng, tier):
             # about one solver case in ten enumerates the outcome tree of two time steps (three grid points)
             yield {"kind": "solver", "sub": sub, "solver": ["tjm1", "tjm2", "mcwf", "tjm2", "mcwf"][r - 18],
                    "steps": 2 if ((i // 23) % 2 == 0 and (r - 18) == (i // 46) % 5) else 1}
+    # extension: first-order consistency of the one-step average with the Lindblad generator (appended, so the inputs above
+    # are the same as before the extension)
+    nc = {"quick": 120, "thorough": 1200, "search": 240}.get(tier, 120)
+    for i in range(nc):
+        yield {"kind": "consistency", "sub": rng.randrange(1 << 30), "solver": ["tjm1", "tjm1", "tjm2", "mcwf"][i % 4]}
 
 
 # ----------------------------------------------------------------------------------------------- lottery kinds
@@ -326,6 +338,141 @@ def run_solver(inp):
     return cases
 
 
+# ----------------------------------------------------------------------------------------------- first-order consistency
+class LotterySpy:
+    """wraps `analog_tjm.stochastic_process`: dense state on entry and at return of every call of one run"""
+
+    def __init__(self, L):
+        self.L = L
+        self.calls = []
+
+    def __call__(self, state, noise_model, dt, sim_params, rng=None):
+        ent = lc.to_be(state.to_vec(), self.L)
+        out = self.orig(state, noise_model, dt, sim_params, rng=rng)
+        self.calls.append((ent, lc.to_be(out.to_vec(), self.L), float(dt)))
+        return out
+
+
+def one_step_average(solver, L, state0, ham, nm, t):
+    """E(t): branch average of ONE step of the real solver — every outcome path, weighted with the code's own probabilities.
+    Returns (rho, mass, leaves, entry) with entry = state the real order-1 solver handed to its (single) lottery."""
+    order = 2 if solver == "tjm2" else 1
+    spar = lc.analog_params(L, t, order=order, sample=False, elapsed=t, get_state=True)
+    entry = {}
+    if solver == "mcwf":
+        spar.solver = "MCWF"
+        ctx = mcwf_mod.preprocess_mcwf(copy.deepcopy(state0), ham, nm, spar)
+
+        def run(rng):
+            with lc.patched_default_rng(lambda: rng):
+                mcwf_mod.mcwf((0, ctx))
+            return np.array(ctx.output_state, dtype=complex)
+    else:
+        fn = tjm_mod.analog_tjm_2 if solver == "tjm2" else tjm_mod.analog_tjm_1
+
+        def run(rng):
+            spy = LotterySpy(L)
+            spy.orig = tjm_mod.stochastic_process
+            tjm_mod.stochastic_process = spy
+            try:
+                with lc.patched_default_rng(lambda: rng):
+                    fn((0, state0, nm, spar, ham))
+            finally:
+                tjm_mod.stochastic_process = spy.orig
+            if not spy.calls:
+                raise RuntimeError("the solver never called stochastic_process")
+            entry.setdefault("psi", spy.calls[0][0])
+            entry.setdefault("ncalls", len(spy.calls))
+            entry.setdefault("dts", [c[2] for c in spy.calls])
+            return spy.calls[-1][1]
+
+    leaves, runs, _ = lc.enumerate_tree(run)
+    dim = 2 ** L
+    rho = np.zeros((dim, dim), dtype=complex)
+    for pr, v, _ in leaves:
+        rho += pr * np.outer(v, v.conj())
+    return rho, sum(pr for pr, _, _ in leaves), len(leaves), entry
+
+
+# largest values seen by the consistency oracle on this run (reported with the other margins)
+lc.DEV.update({"consistency-abs-fraction(tol 1)": 0.0, "consistency-min-ratio(tol 1.6)": 99.0,
+               "consistency-max-ratio(tol 2.6)": 0.0, "consistency-mass(tol 1e-9)": 0.0})
+
+
+def run_consistency(inp):
+    rng = random.Random(inp["sub"])
+    solver = inp["solver"]
+    L = int(inp.get("L", rng.choice([2, 2, 3])))
+    kinds = ("1", "1", "adj", "adjp", "lr")
+    if "procs" in inp:
+        dicts = [dict(p) for p in inp["procs"]]
+    else:
+        dicts = lc.random_process_dicts(rng, L, m=rng.choice([1, 2, 2, 3] if solver != "tjm2" else [1, 2, 2]), kinds=kinds,
+                                        zero_p=0.1, gmin=0.2, gmax=1.0, dup_p=0.0)
+    nm = NoiseModel(dicts)
+    skind0 = rng.choice(["product", "entangled", "mixed", "basis"])
+    if "basis" in inp:
+        state0, skind = basis_mps(L, inp["basis"]), "basis:" + inp["basis"]
+    else:
+        state0, skind = lc.random_mps(rng, L, kind=inp.get("state", skind0))
+    jj, gg = rng.choice([0.5, 1.0]), rng.choice([0.3, 0.7])
+    ham = MPO.ising(L, jj, gg)
+    hd = np.asarray(ham.to_matrix(), dtype=complex)
+    psi0 = lc.to_be(state0.to_vec(), L)
+    rho0 = np.outer(psi0, psi0.conj())
+    ops = [(lc.embed_be(p, L), float(p["strength"])) for p in nm.processes]
+    scale = 2 * np.linalg.norm(hd, 2) + sum(g * np.linalg.norm(o, 2) ** 2 for o, g in ops)
+    dt = float(inp.get("dt", rng.choice([0.04, 0.06]) / max(scale, 0.5)))
+    dim = 2 ** L
+    lrho = (lc.lindbladian(hd, ops, dim) @ rho0.reshape(-1)).reshape(dim, dim)  # dense L(rho), model-independent
+    cases, probs = [], []
+    ds, masses, leaves_n = [], [], []
+    for t in (dt, dt / 2, dt / 4):
+        rho, mass, nleaf, entry = one_step_average(solver, L, state0, ham, nm, t)
+        masses.append(mass)
+        leaves_n.append(nleaf)
+        ds.append(float(np.linalg.norm((rho - rho0) / t - lrho)))
+        if np.linalg.norm(rho - rho.conj().T) > 1e-9:
+            probs.append(f"one-step average at dt={t:.4g} is not Hermitian")
+        wref = 0.0
+        if solver == "tjm1" and entry.get("ncalls") == 1:
+            wref = sum(g * float(np.linalg.norm(o @ entry["psi"]) ** 2) for o, g in ops)
+        if solver == "tjm1" and entry.get("ncalls") == 1 and t in (dt, dt / 4) and wref > 1e-12:
+            # value tie: the model's closed form (C01.3 / `pureAverage` of C01.7) on the state the real solver handed to its
+            # lottery must be the branch average the real solver produced
+            psi_t = entry["psi"]
+            lps = [o @ psi_t for o, g in ops if g > 0]
+            edge = lc.schmidt_edge(psi_t, L) or any(lc.schmidt_edge(lp, L) for lp in lps if np.vdot(lp, lp).real > 1e-20)
+            cases.append({"req": f"avg {L} {ib.frac(entry['dts'][0])} | {lc.procs_req(nm.processes)} | {lc.cvec_req(psi_t)}",
+                          "impl": lc.cfmts(rho), "oracle": None, "kind": "consistency:avg", "edge": bool(edge),
+                          "nontrivial": nleaf >= 2, "sig": f"cavg:{L}:{len(dicts)}:{nleaf}:{skind.split(':')[0]}"})
+    lc.dev("consistency-mass(tol 1e-9)", max(abs(m - 1) for m in masses))
+    if any(abs(m - 1) > 1e-9 for m in masses):
+        probs.append(f"path probabilities of one step sum to {masses}")
+    x = scale * dt
+    bound = 2.0 * scale * x + 1e-7
+    lc.dev("consistency-abs-fraction(tol 1)", ds[0] / bound)
+    if ds[0] > bound:
+        probs.append(f"{solver}: (E(dt)-rho)/dt differs from the Lindbladian L(rho) by {ds[0]:.3e} at scale*dt={x:.3g} "
+                     f"(allowed {bound:.3e}): the derivative of the one-step average at 0 is not L(rho)")
+    ratios = [ds[0] / ds[1] if ds[1] > 0 else float("inf"), ds[1] / ds[2] if ds[2] > 0 else float("inf")]
+    floor = 2e-6
+    if ds[1] > floor:
+        # first-order convergence of the difference quotient: the error halves with dt (a wrong derivative gives ratio -> 1)
+        lc.dev("consistency-min-ratio(tol 1.6)", min(ratios), min)
+        lc.dev("consistency-max-ratio(tol 2.6)", max(ratios))
+        if min(ratios) < 1.6:
+            probs.append(f"{solver}: error of the difference quotient does not halve with dt — {ds[0]:.3e}, {ds[1]:.3e}, {ds[2]:.3e} "
+                         f"at dt, dt/2, dt/4 (ratios {ratios[0]:.2f}, {ratios[1]:.2f}; a wrong derivative gives 1, the theorem 2)")
+    cases.append({"req": None, "impl": None, "edge": False, "kind": "consistency:" + solver, "nontrivial": ds[0] > floor,
+                  "sig": f"consistency:{solver}:{L}:{len(dicts)}:{skind.split(':')[0]}:{max(leaves_n)}",
+                  "oracle": {"ok": not probs, "detail": "; ".join(probs) or
+                             f"{solver} |(E-rho)/dt - L rho| = {ds[0]:.3e}, {ds[1]:.3e}, {ds[2]:.3e} ratios {ratios[0]:.2f} {ratios[1]:.2f} "
+                             f"x={x:.3g} leaves={max(leaves_n)}"},
+                  "meta": {"procs": [(p["name"], p["sites"], p["strength"]) for p in nm.processes], "dt": dt, "J": jj, "g": gg}})
+    return cases
+
+
 def guarded(fn, inp, kind):
     """an exception of the real code on an in-domain outcome path is a failing input, not a harness crash"""
     try:
@@ -350,6 +497,8 @@ def run(inp):
         return guarded(run_step, inp, "step")
     if k == "solver":
         return guarded(run_solver, inp, "solver:" + str(inp.get("solver")))
+    if k == "consistency":
+        return guarded(run_consistency, inp, "consistency:" + str(inp.get("solver")))
     raise ValueError(k)
 
 
@@ -362,7 +511,10 @@ if __name__ == "__main__":
             rule="distinct (kind, state family, L, #processes, #non-zero branches / process name) signatures",
             trusted_base=["numpy Generator: random() uniform on [0,1), choice(p) distributed as p (zero-probability index never drawn: spec-tied)",
                           "dense numpy/scipy reference (kron embedding, Lindbladian expm) used in oracles only",
-                          "analytic limit dt->0 of the one-step identity (C01.3) is cited, not formalised; measured as Richardson ratio"],
+                          "analytic limit dt->0 of the one-step identity (C01.3) is cited, not formalised; measured as Richardson ratio",
+                          "extension C01.7/C01.8: the derivative of the one-step average at dt=0 (= Lindbladian) and the O(dt^2) local "
+                          "error ARE theorems now (Mathlib matrix exponential); cited remains only the accumulation over the grid. The "
+                          "`consistency` cases measure the derivative on the real solvers (difference quotient vs dense Lindbladian)"],
             assumptions=["Pauli pair operators are unitary (weight uses the state norm) — tied through `bn` and `avg` requests",
                          "order of unitary/dissipation/lottery per grid column: Model.Pipeline (C15), not this file"],
             spec=spec, budget_s=BUDGET)
